@@ -302,18 +302,21 @@ func (w *World) puppet(rc *roundCtx, phaseFired lib.Phase) {
 			rc.tracks = []*track{{block: c.Block, results: c.Results, bh: c.QC.BlockHash, rh: c.QC.ResultsHash, highQc: hq, rcBuild: c.RCBuild, to: all}}
 		case rc.sc.L == 4:
 			// equivocate: X to every node but the highest honest one, X' to that one (and to itself)
-			odd := -1
+			var hon []int
 			for i := range w.Nodes {
 				if w.Honest(i) && w.Live(i) {
-					odd = i
+					hon = append(hon, i)
 				}
 			}
 			bx, rx := MakeBlock(byz, rc.rh, rc.round, 1)
 			by, ry := MakeBlock(byz, rc.rh, rc.round, 2)
-			toX, toY := map[int]bool{}, map[int]bool{byz: true, odd: true}
-			for i := range w.Nodes {
-				if i != odd {
+			// X to the first half (rounded up) of the live honest nodes, X' to the rest
+			toX, toY := map[int]bool{byz: true}, map[int]bool{byz: true}
+			for k, i := range hon {
+				if k < (len(hon)+1)/2 {
 					toX[i] = true
+				} else {
+					toY[i] = true
 				}
 			}
 			hash := func(b []byte) []byte { h, _ := new(lib.Block).BytesToBlockHash(b); return h }
